@@ -1,6 +1,7 @@
 import ArrowModel.Common.Proto
 import ArrowModel.C13.Spec
 import ArrowModel.C13.Model
+import ArrowModel.C13.Float
 import ArrowModel.C13.DType
 /-
 C13 driver: one case line → one canonical answer line, computed by the *model*; where a
@@ -18,7 +19,7 @@ deriving BEq, Inhabited
 inductive Ty where
   | int (lo hi : Int)
   | dec (w p : Nat) (s : Int)
-  | bool | str | float
+  | bool | str | float (eb fb : Nat)
   | ts (u : Nat) | dur (u : Nat) | date32 | date64 | t32 (u : Nat) | t64 (u : Nat)
 deriving BEq
 
@@ -40,7 +41,7 @@ def parseTy (t : String) : Option Ty :=
   | "i64" => some (.int (-9223372036854775808) 9223372036854775807)
   | "u8" => some (.int 0 255) | "u16" => some (.int 0 65535) | "u32" => some (.int 0 4294967295)
   | "u64" => some (.int 0 18446744073709551615)
-  | "f32" | "f64" => some .float
+  | "f16" => some (.float 5 10) | "f32" => some (.float 8 23) | "f64" => some (.float 11 52)
   | "bool" => some .bool
   | "utf8" | "lutf8" | "utf8v" => some .str
   | "date32" => some .date32 | "date64" => some .date64
@@ -112,7 +113,31 @@ def plan (src dst : Ty) : Plan :=
   if src == dst then .ident else
   if (match dst with | .dec w p s => !validDecType w p s | _ => false) then .typeErr else
   match src, dst with
-  | .float, _ | _, .float => .skip
+  -- floating point
+  | .float eb fb, .dec w p s =>
+    let model : Val → Option Val := liftI (fun bits => floatToDec w p s (decodeF eb fb bits.toNat))
+    -- the specification (exact product, exact rounding) applies where the binary64 product
+    -- `10^s * v` carries no rounding error; elsewhere only the algorithm model is compared
+    let spec : Val → Option Val := liftI (fun bits =>
+      let v := decodeF eb fb bits.toNat
+      match v with
+      | .fin neg m e => if prodExact s v then floatToDecSpec p s neg m e else floatToDec w p s v
+      | _ => none)
+    .rowwise model (some spec)
+  | .float eb fb, .int lo hi =>
+    .rowwise (liftI (fun bits => floatToInt lo hi (decodeF eb fb bits.toNat)))
+      (some (liftI (fun bits => match decodeF eb fb bits.toNat with
+        | .fin neg m e => floatToIntSpec lo hi neg m e
+        | _ => none)))
+  | .int _ _, .float eb fb =>
+    if eb = 5 then .skip else
+    .rowwise (liftI (fun x => some (encodeF eb fb (intToFloat eb fb x)))) none
+  | .float eb1 fb1, .float eb2 fb2 =>
+    if eb2 = 5 then .skip else
+    .rowwise (liftI (fun bits => some (encodeF eb2 fb2 (match decodeF eb1 fb1 bits.toNat with
+      | .fin neg m e => rneRat eb2 fb2 neg (m * 2 ^ e.toNat) (2 ^ (-e).toNat)
+      | v => v)))) none
+  | .float _ _, _ | _, .float _ _ => .skip
   -- decimals
   | .dec w1 p1 s1, .dec w2 p2 s2 =>
     let spec := some (liftI (decToDecSpec s1 p2 s2))
